@@ -154,6 +154,55 @@ theorem C01_nobody_else_partial (b : B) (p : Pub) (held : List Mqtt.Spec.Broker.
   obtain ⟨hm1, hm2⟩ := List.mem_filter.mp hm
   exact ⟨h, hm1, hm2, target_delivery p h.owner h.qos⟩
 
+/-! ### ... until the end of the connection -/
+
+/-- The end of a connection (`stop`: peer close, keep-alive expiry, protocol
+error, DISCONNECT).  The entries of `c` under the paths of its session's topics
+leave the trie (other subscribers' entries stay); and whatever the trie still
+holds, from then on no PUBLISH is forwarded to `c`: in the state after `stop`,
+`onPublish` addresses no output to it. -/
+theorem C01_connection_end_partial (b : B) (hinv : Inv b) (c : Nat) (hc : c < cbBase) :
+    (∀ cn s, b.getConn c = some cn → cn.alive = true → b.getSess cn.sess = some s →
+      (abs (stop b c).1.topics.sroot).Perm (entriesAfterUnsub c (s.topics.map (·.1)) (abs b.topics.sroot)) ∧
+      ((abs (stop b c).1.topics.sroot).filter (fun e => e.2.1 != c)).Perm
+        ((abs b.topics.sroot).filter (fun e => e.2.1 != c))) ∧
+    (∀ p : Pub, good p.topic = true → validName p.topic = true → p.qos ≤ 2 → (p.pktid ≠ 0 ∨ p.qos = 0) →
+      ∀ o ∈ (onPublish (stop b c).1 ⟨p, false⟩).2.2.1, target o ≠ some c) := by
+  constructor
+  · intro cn s h1 h2 h3
+    have hp := stop_sroot b hinv c cn s h1 h2 h3
+    refine ⟨hp, ?_⟩
+    have := hp.filter (fun e => e.2.1 != c)
+    rw [entriesAfterUnsub_others] at this
+    exact this
+  · intro p hg hn hq hid o ho htc
+    obtain ⟨_, hperm⟩ := onPublish_char_gen _ p (Inv_stop b c hinv) hg hn hq hid
+    have hin : dropCallRetain o ∈ ((onPublish (stop b c).1 ⟨p, false⟩).2.2.1.map dropCallRetain) :=
+      List.mem_map.mpr ⟨o, ho, rfl⟩
+    rw [hperm.mem_iff] at hin
+    obtain ⟨e, he, heq⟩ := List.mem_map.mp hin
+    obtain ⟨_, he2⟩ := List.mem_filter.mp he
+    simp only [Bool.and_eq_true] at he2
+    have h1 : target (dropCallRetain (fwd p (e.2.1, min p.qos e.2.2))) = some e.2.1 := by
+      rw [target_dropCallRetain, ← delivery_eq, target_delivery]
+    rw [heq, target_dropCallRetain, htc] at h1
+    have hce : e.2.1 = c := (Option.some.inj h1).symm
+    have hr := he2.2
+    rw [hce] at hr
+    have hnc : ¬ cbBase ≤ c := by omega
+    simp [reachable, stop_dead, hnc] at hr
+
+/-- non-vacuity: connection 1 of `exState` closes; a PUBLISH on "a/b" then
+reaches callback 1000 and connection 2 only, and the trie has lost the entries
+of connection 1 -/
+example :
+    let b1 := (step exState (.close 1)).1
+    abs b1.topics.sroot = [([[97], [35]], 1000, 1), ([[35]], 2, 1)] ∧
+    (onPublish b1 ⟨{ qos := 1, topic := [97, 47, 98], pktid := 5, payload := [1] }, false⟩).2.2.1 =
+      [.call 1000 { qos := 1, topic := [97, 47, 98], pktid := 5, payload := [1] },
+       .send 2 (.publish { qos := 1, topic := [97, 47, 98], pktid := 5, payload := [1] })] := by
+  decide
+
 /-- the full statement: all valid topic names -/
 def C01_publish_held_full : Prop :=
   ∀ (b : B) (p : Pub) (held : List Mqtt.Spec.Broker.Held), Inv b → HeldInv b.topics.sroot held →
